@@ -362,6 +362,14 @@ ares_status_t ares_array_claim_at(void *dest, size_t dest_size,
   }
 
   arr->cnt--;
+
+  /* Once empty, start over at the beginning of the allocation.  Otherwise an
+   * array drained from the front up to alloc_cnt would have an offset that no
+   * longer addresses a valid member, and every later insert would fail in
+   * ares_array_move(). */
+  if (arr->cnt == 0) {
+    arr->offset = 0;
+  }
   return ARES_SUCCESS;
 }
 
